@@ -17,7 +17,7 @@ import numpy as np
 
 ID = "C13"
 SHARDS = {"quick": 8, "thorough": 16}
-BUDGET = {"quick": 45, "thorough": 420}
+BUDGET = {"quick": 300, "thorough": 1800}
 RULE = ("grids 1x1..20x20; cell size / corners from arbitrary finite doubles (0.1, "
         "1/3, 1e-7, 123456.789012345, negatives, random mantissas); dtypes int8.."
         "int64, uint8..uint64, float16/32/64 with min / max / 0 / random full-range "
